@@ -37,6 +37,7 @@ class Obligation:
     group: str = ''              # which part of the property this obligation belongs to
     engine: str = 'crosshair'    # 'crosshair' | 'smt' | 'concrete'
     max_iterations: Optional[int] = None
+    replay_repeat: int = 1       # the replay calls the obligation this many times in ONE fresh interpreter (history-dependent properties)
 
     def to_json(self):
         return asdict(self)
